@@ -72,6 +72,7 @@ def run(ctx: Ctx) -> None:
     n = ctx.pick(400, 15000)
     scenarios = [qf.gen_c10(rng, 'c10-%d' % k, ctx.thorough) for k in range(n)]
     scenarios += [qf.gen_c10_partial(rng, 'c10p-%d' % k, ctx.thorough) for k in range(max(8, n // 12))]
+    scenarios += [qf.gen_c10_long(rng, 'c10l-%d' % k, ctx.thorough) for k in range(ctx.pick(60, 400))]
     # binding 1: the implementation-shaped scheduler model against the contract, exhaustively
     info = sm.check_models(ctx)
     ctx.log('Sched model: %d distinct states, depth %s, contract invariants hold; defect configuration violates %s'
